@@ -59,7 +59,7 @@ def c44Run (s : C44State) (op : Op) : C44State × Res :=
   let r := if s.os then Os.step s.st op else Mem.step s.st op
   ({ s with st := r.1 }, r.2)
 
-def c44Show (count : Int) (fresh : Bool := false) : Res → String
+def c44Show (count : Int) (fresh : Bool) : Res → String
   | .ok => "ok"
   | .err => "err"
   | .badHandle => "bad-handle"
@@ -87,19 +87,19 @@ def c44Step (s : C44State) (line : String) : C44State × String :=
   | ["mkdir", p] =>
     match c44Path p with
     | none => (s, "bad-op")
-    | some p => let r := c44Run (c44Mutate s) (.mkdir p); (r.1, c44Show 0 r.2)
+    | some p => let r := c44Run (c44Mutate s) (.mkdir p); (r.1, c44Show 0 false r.2)
   | ["removeall", p] =>
     match c44Path p with
     | none => (s, "bad-op")
-    | some p => let r := c44Run (c44Mutate s) (.removeAll p); (r.1, c44Show 0 r.2)
+    | some p => let r := c44Run (c44Mutate s) (.removeAll p); (r.1, c44Show 0 false r.2)
   | ["rename", a, b] =>
     match c44Path a, c44Path b with
-    | some a, some b => let r := c44Run (c44Mutate s) (.rename a b); (r.1, c44Show 0 r.2)
+    | some a, some b => let r := c44Run (c44Mutate s) (.rename a b); (r.1, c44Show 0 false r.2)
     | _, _ => (s, "bad-op")
   | ["stat", p] =>
     match c44Path p with
     | none => (s, "bad-op")
-    | some p => let r := c44Run s (.stat p); (r.1, c44Show 0 r.2)
+    | some p => let r := c44Run s (.stat p); (r.1, c44Show 0 false r.2)
   | ["open", p, acc, fl] =>
     match c44Path p, acc.toNat? with
     | some p, some acc =>
@@ -109,27 +109,27 @@ def c44Step (s : C44State) (line : String) : C44State × String :=
         let s := c44Mutate s
         let r := c44Run s (.open p f)
         match r.2 with
-        | .opened h _ => ({ r.1 with slots := s.slots ++ [some h], stale := s.stale ++ [false], listed := s.listed ++ [false] }, c44Show 0 r.2)
-        | _ => ({ r.1 with slots := s.slots ++ [none], stale := s.stale ++ [true], listed := s.listed ++ [false] }, c44Show 0 r.2)
+        | .opened h _ => ({ r.1 with slots := s.slots ++ [some h], stale := s.stale ++ [false], listed := s.listed ++ [false] }, c44Show 0 false r.2)
+        | _ => ({ r.1 with slots := s.slots ++ [none], stale := s.stale ++ [true], listed := s.listed ++ [false] }, c44Show 0 false r.2)
     | _, _ => (s, "bad-op")
   | ["fstat", k] =>
     if k.toNat?.isNone then (s, "bad-op") else
     match c44Slot s k with
     | none => (s, "bad-handle")
-    | some h => let r := c44Run s (.fstat h); (r.1, c44Show 0 r.2)
+    | some h => let r := c44Run s (.fstat h); (r.1, c44Show 0 false r.2)
   | ["write", k, d] =>
     match k.toNat?, parseBytes d with
     | some _, some d =>
       match c44Slot s k with
       | none => (s, "bad-handle")
-      | some h => let r := c44Run s (.write h d); (r.1, c44Show 0 r.2)
+      | some h => let r := c44Run s (.write h d); (r.1, c44Show 0 false r.2)
     | _, _ => (s, "bad-op")
   | ["read", k, n] =>
     match k.toNat?, n.toNat? with
     | some _, some n =>
       match c44Slot s k with
       | none => (s, "bad-handle")
-      | some h => let r := c44Run s (.read h n); (r.1, c44Show 0 r.2)
+      | some h => let r := c44Run s (.read h n); (r.1, c44Show 0 false r.2)
     | _, _ => (s, "bad-op")
   | ["seek", k, off, wh] =>
     match k.toNat?, off.toInt?, wh.toNat? with
@@ -140,7 +140,7 @@ def c44Step (s : C44State) (line : String) : C44State × String :=
         match s.st.handles[h]? with
         | some hd =>
           if hd.isDir then (s, "skip")
-          else let r := c44Run s (.seek h off wh); (r.1, c44Show 0 r.2)
+          else let r := c44Run s (.seek h off wh); (r.1, c44Show 0 false r.2)
         | none => (s, "bad-handle")
     | _, _, _ => (s, "bad-op")
   | ["readdir", k, c] =>
